@@ -1178,4 +1178,129 @@ Section Proofs.
     destruct (seq_process pre b) as [[r st]|], (par_process pre b _ _) as [[r' st']|]; try tauto.
     destruct S as [-> E]. symmetry. apply validate_state_root. exact E.
   Qed.
+
+  (* ---- the same three statements for the result of ANY completed schedule ---- *)
+  Theorem parallel_eq_sequential pre b h s :
+    Forall tx_ext (phases b) -> Forall gas_local (b_txs b) ->
+    prun pre (bal_of_seq pre b) (b_txs b) p_init h = Some s ->
+    p_done (length (b_txs b)) s = true ->
+    same_outcome (seq_process pre b)
+                 (par_process pre b (bal_of_seq pre b) (p_outcome (b_txs b) s)).
+  Proof.
+    intros Hext G R Dn. rewrite (schedule_independent _ _ _ _ _ R Dn).
+    apply par_eq_seq_workers; assumption.
+  Qed.
+  Theorem wrong_bal_rejected_sched pre b hd B h s :
+    Forall tx_ext (phases b) -> Forall gas_local (b_txs b) ->
+    prun pre B (b_txs b) p_init h = Some s -> p_done (length (b_txs b)) s = true ->
+    B <> bal_of_seq pre b ->
+    verdict_par pre b hd B (p_outcome (b_txs b) s) <> 0.
+  Proof.
+    intros Hext G R Dn. rewrite (schedule_independent _ _ _ _ _ R Dn).
+    apply wrong_bal_rejected; assumption.
+  Qed.
+  Theorem verdict_par_true_sched pre b hd h s :
+    Forall tx_ext (phases b) -> Forall gas_local (b_txs b) ->
+    prun pre (bal_of_seq pre b) (b_txs b) p_init h = Some s ->
+    p_done (length (b_txs b)) s = true ->
+    verdict_par pre b hd (bal_of_seq pre b) (p_outcome (b_txs b) s)
+    = if validate_body (n_of b + 1) hd (bal_of_seq pre b) then verdict_seq pre b hd else 1.
+  Proof.
+    intros Hext G R Dn. rewrite (schedule_independent _ _ _ _ _ R Dn).
+    apply verdict_par_true; assumption.
+  Qed.
 End Proofs.
+
+(* ================= the byte-string instance meets the hypotheses ================= *)
+Lemma bytes_eqb_spec a : forall b, bytes_eqb a b = true <-> a = b.
+Proof.
+  induction a as [|x a IH]; intros [|y b]; simpl; split; intros H; try discriminate; auto.
+  - apply andb_true_iff in H. destruct H as [H1 H2]. apply N.eqb_eq in H1. apply IH in H2. congruence.
+  - inversion H; subst. rewrite N.eqb_refl. simpl. apply IH. reflexivity.
+Qed.
+Lemma list_eqb_spec {A} (eq : A -> A -> bool) :
+  (forall x y, eq x y = true <-> x = y) -> forall a b, list_eqb eq a b = true <-> a = b.
+Proof.
+  intros S a. induction a as [|x a IH]; intros [|y b]; simpl; split; intros H; try discriminate; auto.
+  - apply andb_true_iff in H. destruct H as [H1 H2]. apply S in H1. apply IH in H2. congruence.
+  - inversion H; subst. apply andb_true_iff. split; [apply S | apply IH]; reflexivity.
+Qed.
+Lemma entry_eqb_spec x y : entry_eqb x y = true <-> x = y.
+Proof.
+  destruct x as [i a], y as [j b]. unfold entry_eqb. simpl.
+  rewrite andb_true_iff, N.eqb_eq, bytes_eqb_spec. split; [intros [-> ->]; auto | intros H; inversion H; auto].
+Qed.
+Lemma bal_eqb_spec a b : bal_eqb a b = true <-> a = b.
+Proof.
+  destruct a as [w r], b as [w' r']. unfold bal_eqb. simpl.
+  rewrite andb_true_iff.
+  rewrite (list_eqb_spec _ bytes_eqb_spec).
+  rewrite (list_eqb_spec (fun x y => bytes_eqb (fst x) (fst y) && list_eqb entry_eqb (snd x) (snd y))).
+  - split; [intros [-> ->]; auto | intros H; inversion H; auto].
+  - intros [k es] [k' es']. simpl.
+    rewrite andb_true_iff, bytes_eqb_spec, (list_eqb_spec _ entry_eqb_spec).
+    split; [intros [-> ->]; auto | intros H; inversion H; auto].
+Qed.
+Lemma receipt_eqb_spec a b : receipt_eqb a b = true <-> a = b.
+Proof.
+  destruct a as [o u c l], b as [o' u' c' l']. unfold receipt_eqb. simpl.
+  rewrite !andb_true_iff, !N.eqb_eq, bytes_eqb_spec.
+  split; [intros [[[-> ->] ->] ->]; auto | intros H; inversion H; auto].
+Qed.
+Lemma digest_eqb_spec a b : digest_eqb a b = true <-> a = b.
+Proof.
+  destruct a, b; simpl; try (split; intros H; discriminate).
+  - rewrite bal_eqb_spec. split; [intros ->; auto | intros H; inversion H; auto].
+  - rewrite (list_eqb_spec _ receipt_eqb_spec). split; [intros ->; auto | intros H; inversion H; auto].
+  - rewrite bytes_eqb_spec. split; [intros ->; auto | intros H; inversion H; auto].
+  - rewrite (list_eqb_spec _ bytes_eqb_spec). split; [intros ->; auto | intros H; inversion H; auto].
+Qed.
+Lemma DBal_inj a b : DBal a = DBal b -> a = b.
+Proof. intros H; inversion H; auto. Qed.
+Lemma root_on_ext keys (s s' : view bkey bkey) : (forall k, s k = s' k) -> root_on keys s = root_on keys s'.
+Proof. intros E. unfold root_on. f_equal. apply map_ext. exact E. Qed.
+
+(* ---- a concrete block: two transactions conflicting on key [1] ---- *)
+Definition ex_eff (rd : list bkey) (ws : list (bkey * bkey)) (o : bkey) : effects bkey bkey bkey :=
+  Build_effects _ _ _ true rd ws 100 10 5 10 1 o.
+Definition ex_block : block bkey bkey bkey :=
+  Build_block _ _ _
+    (fun v => ex_eff [[9]] [] [])
+    [ (fun v => ex_eff [[1]] [([1], v [1] ++ [1])] [1]);
+      (fun v => ex_eff [[1]; [2]; [3]] [([2], v [1]); ([3], v [3])] [2]) ]
+    (fun v => ex_eff [] [] [7])
+    1000.
+Definition ex_pre : view bkey bkey := fun _ => [].
+Definition ex_keys : list bkey := [[1]; [2]; [3]; [9]].
+
+Definition ex_vpar := verdict_par bkey bkey bkey digest bytes_eqb bytes_ltb bytes_eqb digest_eqb
+                        DBal DRec DReq (root_on ex_keys) ex_pre ex_block.
+
+Definition c33_example_check : bool :=
+  match seq_process bkey bkey bkey bytes_eqb bytes_eqb ex_pre ex_block with
+  | None => false
+  | Some rs =>
+      let hd := header_of bkey bkey bkey digest bytes_ltb DBal DRec DReq (root_on ex_keys) rs in
+      let B := to_encoding bkey bkey bytes_ltb (r_bal _ _ _ (fst rs)) in
+      let sched := [(0%nat, Claim); (1%nat, Claim); (1%nat, Finish); (0%nat, Finish)] in
+      match prun bkey bkey bkey bytes_eqb ex_pre B (b_txs _ _ _ ex_block) (p_init _ _ _) sched with
+      | None => false
+      | Some s =>
+          let B' := Build_bal bkey bkey (b_w _ _ B) [] in
+          let hd' := Build_header digest (h_gas _ hd) (h_rec _ hd) (h_req _ hd) (DBal B') (h_root _ hd) in
+          p_done _ _ _ 2 s
+          && (ex_vpar hd B (p_outcome _ _ _ (b_txs _ _ _ ex_block) s) =? 0)
+          && (ex_vpar hd B' (p_outcome _ _ _ (b_txs _ _ _ ex_block) s) =? 1)
+          && (ex_vpar hd' B' (p_outcome _ _ _ (b_txs _ _ _ ex_block) s) =? 6)
+          && bal_eqb B (Build_bal bkey bkey [([1], [(1, [1])]); ([2], [(2, [1])])] [[3]; [9]])
+      end
+  end.
+
+Lemma ex_block_hyps :
+  Forall (tx_ext bkey bkey bkey) (phases _ _ _ ex_block)
+  /\ Forall (gas_local bkey bkey bkey) (b_txs _ _ _ ex_block).
+Proof.
+  split.
+  - repeat constructor; intros v v' E; simpl; rewrite ?E; reflexivity.
+  - repeat constructor; intros v _; simpl; lia.
+Qed.
